@@ -41,7 +41,7 @@ CASE_TIMEOUT = 300
 LENS = [1, 2, 7, 50, 101]
 HORIZONS = [0.05, 1.0, 2.5]
 FPS = [1, 10, 50, 1000]
-KINDS = ["rb", "pm", "mframe", "box", "ball", "contact", "contact0", "fd", "fd_wedge", "spring", "force", "bforce", "moment", "bmoment", "pmlist",
+KINDS = ["rb", "pm", "mframe", "box", "ball", "contact", "contact0", "fd", "fd_wedge", "spring", "force", "bforce", "moment", "bmoment", "pmlist", "contactlist",
          "rod_cl", "rod_nv_wedge", "rod_nv_quad", "rod_nv_rect", "rod_volume"]
 T0 = 0.3
 VTK_VERTEX, VTK_LINE, VTK_TRIANGLE = 1, 3, 5
@@ -155,6 +155,7 @@ def _scene(seed):
         o["plane"] = Frame(r_OP=P["plane_r"].copy(), A_IB=P["plane_A"].copy(), name="plane")
         o["contact"] = Sphere2Plane(o["plane"], o["ball"], mu=0.3, r=P["ball_R"], e_N=0.0, e_F=0.0, name="contact")
         o["contact0"] = Sphere2Plane(system.origin, o["pm"], mu=0, r=P["c0_r"], e_N=0.0, name="contact0")
+        o["contact2"] = Sphere2Plane(o["plane"], o["rb"], mu=0.5, r=0.4, e_N=0.0, e_F=0.0, name="contact2")
         o["fd"] = FixedDistance(o["pm2"], o["rb"], B1_r_P1J1=P["fd_B1"].copy(), B2_r_P2J2=P["fd_B2"].copy())
         o["fd"].name = "fd"
         tpi = TwoPointInteraction(o["rb"], o["box"], B_r_CP1=P["tpi_B1"].copy(), B_r_CP2=P["tpi_B2"].copy())
@@ -163,7 +164,7 @@ def _scene(seed):
         o["bforce"] = B_Force(_bforce_t, o["box"], B_r_CP=P["bforce_B"].copy(), name="bforce")
         o["moment"] = Moment(_moment_t, o["rb"], name="moment")
         o["bmoment"] = B_Moment(_moment_t, o["box"], name="bmoment")
-        order = ["rb", "pm", "pm2", "mframe", "box", "ball", "plane", "contact", "contact0", "fd", "spring", "force", "bforce", "moment", "bmoment"]
+        order = ["rb", "pm", "pm2", "mframe", "box", "ball", "plane", "contact", "contact0", "contact2", "fd", "spring", "force", "bforce", "moment", "bmoment"]
         system.add(*[o[k] for k in order])
         system.assemble(options=SolverOptions(compute_consistent_initial_conditions=False))
     return system, o
@@ -314,6 +315,23 @@ def _expect(kind, o, row):
         V = np.asarray(o["ball"].B_visual_mesh.vertices, float)
         E["points"] = [r + A @ vv for vv in V]
         E["custom"] = ("sphere", r, P["ball_R"], len(o["ball"].B_visual_mesh.faces))
+    elif kind == "contactlist":
+        # a LIST of two frictional contacts (array-valued point data): entries must stay in list order
+        Es = []
+        for cname, bname, R in (("contact", "ball", P["ball_R"]), ("contact2", "rb", 0.4)):
+            r, A, v, om = _rbs(o, bname, q, u)
+            nrm, rQ, t1, t2 = P["plane_A"][:, 2], P["plane_r"], P["plane_A"][:, 0], P["plane_A"][:, 1]
+            c = o[cname]
+            d = nrm @ (r - rQ)
+            vc = v + np.cross(om, -R * nrm)
+            PN, PF = row["P_N"][c.la_NDOF], row["P_F"][c.la_FDOF]
+            Es.append({"points": [r - R * nrm, r - d * nrm],
+                       "point_data": {"v_Ci": [vc, np.zeros(3)], "Omega": [om, np.zeros(3)], "n": [-nrm, nrm], "t1": [-t1, t1], "t2": [-t2, t2], "P_N": [PN, PN], "P_F": [PF, PF]},
+                       "cell_data": {"g_N": [[d - R]], "g_N_dot": [[nrm @ v]], "gamma_F": [[t1 @ vc, t2 @ vc]]}})
+        E["points"] = Es[0]["points"] + Es[1]["points"]
+        E["cells"] = [(VTK_LINE, [0, 1]), (VTK_LINE, [2, 3])]
+        E["point_data"] = {k: list(Es[0]["point_data"][k]) + list(Es[1]["point_data"][k]) for k in Es[0]["point_data"]}
+        E["cell_data"] = {k: list(Es[0]["cell_data"][k]) + list(Es[1]["cell_data"][k]) for k in Es[0]["cell_data"]}
     elif kind in ("contact", "contact_run"):
         r, A, v, om = _rbs(o, "ball", q, u)
         if kind == "contact":
@@ -679,6 +697,8 @@ def check(case):
             kwargs = {}
             if kind == "pmlist":
                 contr = [o["pm"], o["pm2"]]
+            elif kind == "contactlist":
+                contr = [o["contact"], o["contact2"]]
             elif kind == "fd_wedge":
                 contr, kwargs = o["fd"], {"base_export": False, "radius": P["wedge_radius"]}
             elif kind.startswith("rod"):
